@@ -1,8 +1,8 @@
 (* C04/Props.v — the property theorems, nothing else.
-   Model: C04/Model.v.  Proofs: Glob.v, Sound.v, Assoc.v, Prune.v, Shrink.v, Coherent.v, Cmd.v, Secure.v, Nick.v. *)
+   Model: C04/Model.v.  Proofs: Glob.v, Sound.v, Assoc.v, Prune.v, Shrink.v, Coherent.v, Cmd.v, Secure.v, Nick.v, Memo.v. *)
 From Coq Require Import List NArith ZArith Bool.
 Import ListNotations.
-Require Import Base.Wire Base.PyStr C04.Model C04.Glob C04.Sound C04.Prune C04.Shrink C04.Coherent C04.Cmd C04.Secure C04.Nick.
+Require Import Base.Wire Base.PyStr C04.Model C04.Glob C04.Sound C04.Prune C04.Shrink C04.Coherent C04.Cmd C04.Secure C04.Nick C04.Memo.
 Require C03.Model.
 
 (* The regex the code builds from a hostmask pattern decides exactly the
@@ -207,3 +207,15 @@ Theorem C04_setUser_only_refuses :
     CacheInv s -> snd (setUser t now s id u) = Raise e -> e = DuplicateHostmask.
 Proof. exact setUser_only_refuses. Qed.
 Print Assumptions C04_setUser_only_refuses.
+
+(* ---- the memo layers of ircutils.hostmaskPatternEqual ---- *)
+
+(* The public matcher keeps a compiled-pattern cache keyed by the pattern and a
+   result cache keyed by (pattern, hostmask) (key expressions and sizes pinned by
+   table T04; both drop everything when full).  For every sequence of lookups
+   from empty caches every answer is the matcher's own: what was asked before
+   never decides for a later hostmask. *)
+Theorem C04_glob_memo :
+  forall qs, memo_run [] [] qs = map (fun q => hmatch (fst q) (snd q)) qs.
+Proof. exact memo_run_direct. Qed.
+Print Assumptions C04_glob_memo.
